@@ -4,17 +4,19 @@ import (
 	"context"
 	"encoding/json"
 	"errors"
+	"math"
 	"reflect"
 	"time"
 )
 
-//verif:entry property=C13 tier=both bounds="K publishes (K_quick=3,K_thorough=4), each with outcome in {ok, unencodable event, append rejected, deadline expired}; error handler present or nil; persistence timeout set or not" cover="all-ok,some-failed" K_quick=3 K_thorough=4
+//verif:entry property=C13 tier=both bounds="K publishes (K_quick=3,K_thorough=4), each with outcome in {ok, unencodable event (by type or by value: NaN), append rejected, deadline expired}; error handler present or nil; persistence timeout set or not; observability set or not" cover="all-ok,some-failed" K_quick=3 K_thorough=4
 func harnessC13Failures() {
 	K := vParam("K", 3)
 	mem := NewMemoryStore()
 	fs := &flakyStore{inner: mem}
 	withHandler := vBool()
 	withTimeout := vBool()
+	withObs := vBool()
 
 	type rep struct {
 		ev  any
@@ -31,17 +33,21 @@ func harnessC13Failures() {
 	if withTimeout {
 		opts = append(opts, WithPersistenceTimeout(time.Second))
 	}
+	if withObs {
+		opts = append(opts, WithObservability(&c20Obs{}))
+	}
 	bus := New(opts...)
 	var gotA []int
 	gotBad := 0
-	Subscribe(bus, func(e evA) { gotA = append(gotA, e.N) })
+	Subscribe(bus, func(e evF) { gotA = append(gotA, e.N) })
 	Subscribe(bus, func(e evBad) { gotBad++ })
+	byValue := vBool() // the unencodable event is unencodable by value (NaN), not by type
 
 	// outcome per publish: 0 ok, 1 append rejected, 2 deadline, 3 unencodable
 	outs := make([]int, K)
 	wantFail := 0
 	var okNs []int
-	nBad := 0
+	nBad, nUnenc := 0, 0
 	for i := 0; i < K; i++ {
 		hi := 3
 		outs[i] = vInt(0, hi)
@@ -55,12 +61,17 @@ func harnessC13Failures() {
 	}
 	for i := 0; i < K; i++ {
 		if outs[i] == 3 {
-			Publish(bus, evBad{})
-			nBad++
+			if byValue {
+				Publish(bus, evF{N: i + 1, F: math.NaN()})
+			} else {
+				Publish(bus, evBad{})
+				nBad++
+			}
+			nUnenc++
 			wantFail++
 			continue
 		}
-		Publish(bus, evA{N: i + 1})
+		Publish(bus, evF{N: i + 1, F: 1.5})
 		if outs[i] == 0 {
 			okNs = append(okNs, i+1)
 		} else {
@@ -71,7 +82,10 @@ func harnessC13Failures() {
 	// delivery is unaffected
 	vAssert(len(gotA) == K-nBad && gotBad == nBad, "all-handlers-still-run")
 	// exactly one append attempt per encodable publish, no retry
-	vAssert(fs.calls == K-nBad, "one-append-attempt-each")
+	vAssert(fs.calls == K-nUnenc, "one-append-attempt-each")
+	for _, d := range fs.sawDeadline {
+		vAssert(d == withTimeout, "persistence-timeout-reaches-the-store")
+	}
 	// reported exactly once each
 	if withHandler {
 		vAssert(len(reports) == wantFail, "each-failure-reported-once")
@@ -86,16 +100,20 @@ func harnessC13Failures() {
 			switch outs[i] {
 			case 1:
 				vAssert(errors.Is(r.err, errInjected), "report-wraps-append-error")
-				vAssert(r.typ == reflect.TypeOf(evA{}), "report-has-type")
-				e, ok := r.ev.(evA)
+				vAssert(r.typ == reflect.TypeOf(evF{}), "report-has-type")
+				e, ok := r.ev.(evF)
 				vAssert(ok && e.N == i+1, "report-has-event")
 			case 2:
 				vAssert(errors.Is(r.err, context.DeadlineExceeded), "report-wraps-deadline")
-				vAssert(r.typ == reflect.TypeOf(evA{}), "report-has-type")
+				vAssert(r.typ == reflect.TypeOf(evF{}), "report-has-type")
 			case 3:
-				vAssert(r.typ == reflect.TypeOf(evBad{}), "report-has-type")
-				_, ok := r.ev.(evBad)
-				vAssert(ok, "report-has-event")
+				if byValue {
+					vAssert(r.typ == reflect.TypeOf(evF{}), "report-has-type")
+				} else {
+					vAssert(r.typ == reflect.TypeOf(evBad{}), "report-has-type")
+					_, ok := r.ev.(evBad)
+					vAssert(ok, "report-has-event")
+				}
 			}
 		}
 	}
@@ -103,9 +121,9 @@ func harnessC13Failures() {
 	evs, _, err := mem.Read(context.Background(), OffsetOldest, 0)
 	vAssert(err == nil && len(evs) == len(okNs), "log-has-only-successes")
 	for i := range evs {
-		var d evA
+		var d evF
 		vAssert(json.Unmarshal(evs[i].Data, &d) == nil && d.N == okNs[i], "log-content")
-		vAssert(evs[i].Type == "eventbus.evA", "log-type")
+		vAssert(evs[i].Type == "eventbus.evF", "log-type")
 		if i > 0 {
 			vAssert(evs[i-1].Offset < evs[i].Offset, "log-offsets-increase")
 		}
@@ -113,7 +131,7 @@ func harnessC13Failures() {
 	// a fresh replaying subscriber sees exactly the successful ones
 	bus2 := New(WithStore(mem))
 	var replayed []int
-	rerr := SubscribeWithReplay(context.Background(), bus2, "sub", func(e evA) { replayed = append(replayed, e.N) })
+	rerr := SubscribeWithReplay(context.Background(), bus2, "sub", func(e evF) { replayed = append(replayed, e.N) })
 	vAssert(rerr == nil && len(replayed) == len(okNs), "replay-sees-successes")
 	for i := range replayed {
 		vAssert(replayed[i] == okNs[i], "replay-order")
